@@ -894,6 +894,20 @@ Theorem C04_aliased_default_drops_alias :
 Proof. exact aliased_default_drops_alias. Qed.
 Print Assumptions C04_aliased_default_drops_alias.
 
+Theorem C04_aliased_between_is_plain_with_alias :
+  forall norm_unit d e lo hi not a,
+  nonempty a = true ->
+  enode norm_unit d (EAliased (EBetween e lo hi not) a) = alias_root a (enode norm_unit d (EBetween e lo hi not)).
+Proof. exact aliased_between_is_plain. Qed.
+Print Assumptions C04_aliased_between_is_plain_with_alias.
+
+Theorem C04_aliased_like_is_plain_with_alias :
+  forall norm_unit d e p not ci own a,
+  nonempty a = true ->
+  enode norm_unit d (EAliased (ELike e p not ci own) a) = alias_root a (enode norm_unit d (ELike e p not ci [])).
+Proof. exact aliased_like_is_plain. Qed.
+Print Assumptions C04_aliased_like_is_plain_with_alias.
+
 Theorem C04_with_default_drops_name :
   forall norm_unit d e n sc,
   with_default e = true -> enode norm_unit d (EWith n e sc) = enode norm_unit d e.
